@@ -72,7 +72,7 @@ pub fn select_menu(thorough: bool, sqlite_only: bool) -> Vec<SelOp> {
         m.push(SelOp::Item(Item::Expr(XS::Col(c), None)));
     }
     let items = pool_items();
-    let n_items = if thorough { items.len() } else { 8 };
+    let n_items = if thorough { items.len() } else { 9 };
     for x in items.iter().take(n_items) {
         m.push(SelOp::Item(Item::Expr(x.clone(), None)));
     }
@@ -95,12 +95,12 @@ pub fn select_menu(thorough: bool, sqlite_only: bool) -> Vec<SelOp> {
     }
     m.push(SelOp::Join(JoinK::Left, "t2", on2));
     let pb = pool_bool();
-    let n_pb = if thorough { pb.len() } else { 9 };
+    let n_pb = if thorough { pb.len() } else { 10 };
     for x in pb.iter().take(n_pb) {
         m.push(SelOp::Where(CondS::One(x.clone())));
     }
-    m.push(SelOp::Where(CondS::Any(vec![retag(&pb[0], 50), retag(&pb[4], 50)])));
-    m.push(SelOp::Where(CondS::All(vec![retag(&pb[2], 60), retag(&pb[3], 60)])));
+    m.push(SelOp::Where(CondS::Any(vec![retag(&pb[0], 50), retag(&pb[5], 50)])));
+    m.push(SelOp::Where(CondS::All(vec![retag(&pb[3], 60), retag(&pb[4], 60)])));
     m.push(SelOp::Where(CondS::Any(vec![])));
     m.push(SelOp::Where(CondS::All(vec![])));
     m.push(SelOp::Where(CondS::One(XS::InSub(bx(XS::Col("b")), bx(r[0].clone())))));
